@@ -7,7 +7,7 @@ package main
 //   c16_ops.go  the entry-point table (one op per exported entry point / cmd call sequence)
 //   c16_pool.go parent side: pool of isolated worker child processes, death classification
 //   c16_gen.go  input generators and the generator/oracle loop
-//   c16_tool.go the built command-line tool (cmd/mp4ff-pslister) run as a process on parameter-set lists
+//   c16_tool.go the built command-line tools (cmd/mp4ff-pslister, cmd/mp4ff-nallister) run as processes on parameter-set lists / access units
 //
 // Protocol line (all fields always present):
 //   <op>        <p1> <p2> <ctx1hex> <ctx2hex> <datahex>      one entry point
@@ -47,7 +47,7 @@ const (
 
 func init() {
 	props["C16"] = &propDef{
-		rule: "cases = (entry point, byte string) pairs: every exported avc/hevc/sei/aac/av1 entry point that takes elementary-stream bytes (length-prefixed walkers, Annex B scanners, SPS/PPS/slice-header parsers, SEI extraction, every SEI message decoder with String/Payload/Size, ADTS/ASC, AVC/HEVC/AV1 configuration records, and the library call sequences of mp4ff-nallister/mp4ff-pslister on sample bytes) run on structured-hostile inputs: repo captures and generated well-formed streams mutated by truncation, bit/byte flips, length fields near 2^32, 0..3-byte samples, spliced huge Exp-Golomb codes, syntax-directed SPS/PPS/slice headers with hostile counts, SEI payloads shorter than their headers, zero clock timestamps, random bytes; each pair executed in an isolated child process; oracle: returns (value or error), no panic, time <= 100ms+4us/byte, allocation <= 512*len+256KiB (64 bytes per input bit); plus the built cmd/mp4ff-pslister binary run as a process on parameter-set lists from the C15 serialiser: scenarios {all valid, first/second SPS broken with/without a good one beside it, first/second PPS broken, VPS broken, all broken, PPS naming an absent or later SPS id, no SPS, only VPS, nothing, sets repeated after a slice, reversed, duplicated} x 12 ways of breaking a set (empty, short, header only, truncated, garbage, fill, huge ue(v), trailing bytes, bit flips, other NAL type, other body, other codec) x {avc, hevc} x input modes {-vps/-sps/-pps hex, Annex B file, mp4 init with avcC/hvcC, fragmented mp4, progressive mp4} x {-c avc, -c hevc, -v}; oracle: exit status 0 or 1 (no Go panic / fatal error / signal), no hang (4 s, 1s+4us/byte CPU), resident set <= 64MiB+1024*len; non-trivial = distinct (entry point, non-empty input)",
+		rule: "cases = (entry point, byte string) pairs: every exported avc/hevc/sei/aac/av1 entry point that takes elementary-stream bytes (length-prefixed walkers, Annex B scanners, SPS/PPS/slice-header parsers, SEI extraction, every SEI message decoder with String/Payload/Size, ADTS/ASC, AVC/HEVC/AV1 configuration records, and the library call sequences of mp4ff-nallister/mp4ff-pslister on sample bytes) run on structured-hostile inputs: repo captures and generated well-formed streams mutated by truncation, bit/byte flips, length fields near 2^32, 0..3-byte samples, spliced huge Exp-Golomb codes, syntax-directed SPS/PPS/slice headers with hostile counts, SEI payloads shorter than their headers, zero clock timestamps, random bytes; each pair executed in an isolated child process; oracle: returns (value or error), no panic, time <= 100ms+4us/byte, allocation <= 512*len+256KiB (64 bytes per input bit); plus the built cmd/mp4ff-pslister binary run as a process on parameter-set lists from the C15 serialiser: scenarios {all valid, first/second SPS broken with/without a good one beside it, first/second PPS broken, VPS broken, all broken, PPS naming an absent or later SPS id, no SPS, only VPS, nothing, sets repeated after a slice, reversed, duplicated} x 12 ways of breaking a set (empty, short, header only, truncated, garbage, fill, huge ue(v), trailing bytes, bit flips, other NAL type, other body, other codec) x {avc, hevc} x input modes {-vps/-sps/-pps hex, Annex B file, mp4 init with avcC/hvcC, fragmented mp4, progressive mp4} x {-c avc, -c hevc, -v}; oracle: exit status 0 or 1 (no Go panic / fatal error / signal), no hang (4 s, 1s+4us/byte CPU), resident set <= 64MiB+1024*len; plus the built cmd/mp4ff-nallister binary on the same list shapes and breakages (and NAL units of 1..3 bytes), access units with generated / captured SEI NAL units with the unit at each position broken in turn, SEI-only streams x {avc, hevc} x {-annexb, fragmented mp4, progressive mp4; parameter sets in the samples only or also in avcC/hvcC; last length field too large; sample cut short} x every combination of -sei/-ps/-raw/-m x -c, same oracle; non-trivial = distinct (entry point, non-empty input)",
 		gen:  genC16,
 		exec: execC16,
 	}
